@@ -783,6 +783,8 @@ def run(ctx) -> None:
     check_u2_convert_units(ctx)
     n = check_quantity_source_unit(ctx, 'U2')
     m = check_value_unit_pairing(ctx, 'U2')
+    from rules.units_common import check_no_inplace_conversion
+    m += check_no_inplace_conversion(ctx, 'U2')
     ctx.floor('U2', n + m, 4, 'Quantity(p.value, ...) sites and converted-value stores')
     check_u3(ctx)
     k = check_heuristics(ctx, 'U4')
